@@ -853,7 +853,11 @@ nodesLoop:
 		case *ast.Label:
 			tc.scopes.DeclareLabel(node)
 			if node.Statement != nil {
-				_ = tc.checkNodes([]ast.Node{node.Statement})
+				// The statement may have been transformed, as it happens for
+				// the 'for in' statement.
+				if stmts := tc.checkNodes([]ast.Node{node.Statement}); len(stmts) == 1 {
+					node.Statement = stmts[0]
+				}
 			}
 
 		case *ast.Comment, *ast.Raw:
